@@ -147,7 +147,7 @@ func genHex(rt *rapid.T) *sub {
 }
 
 func TestHex(t *testing.T) {
-	family(t, 60000, 1500000, func(rt *rapid.T) *sub {
+	family(t, 60000, 1000000, func(rt *rapid.T) *sub {
 		for {
 			if s := genHex(rt); s != nil {
 				return s
@@ -283,7 +283,7 @@ func genB64(rt *rapid.T) *sub {
 }
 
 func TestBase64(t *testing.T) {
-	family(t, 80000, 2000000, func(rt *rapid.T) *sub {
+	family(t, 80000, 1200000, func(rt *rapid.T) *sub {
 		for {
 			if s := genB64(rt); s != nil {
 				return s
@@ -321,7 +321,7 @@ func hashSub(in binIn) *sub {
 }
 
 func TestHash(t *testing.T) {
-	family(t, 40000, 1000000, func(rt *rapid.T) *sub {
+	family(t, 24000, 500000, func(rt *rapid.T) *sub {
 		return hashSub(genBin(rt, true))
 	})
 }
